@@ -9,9 +9,9 @@ CLAIMS = {
     text=("Decides structural necessary conditions of 'every view equals a key->bytes map' on all paths: (R1) call graph: every public key view of Container reaches object files and the index only through the single read funnel, and its negative answers (NotExistent, False, None) are derived from the funnel's MISSING outcome (skip_if_missing constants, guards, forwarding); "
           "(R2) the funnel partitions the request by set provenance: found in index -> loose probe of (request - found) -> FileNotFoundError only routes a key to the retry set -> refreshed index query keyed by the retry set -> MISSING = retry set minus the rows yielded, plus the order typestate; "
           "(R3) list_all_objects yields the key column of every index row and every loose file not listed from the index, count_objects = COUNT(*) / number of listed loose files / packs, _list_loose filters only by the name-validity predicates; "
-          "(R4) closed-world destruction table: every unlink/rename/replace/link/rmtree/DELETE/UPDATE/truncate site of the package has a tabled owner function and area, with key provenance for delete_objects, _clean_loose_objects' callers and clean_storage; "
+          "(R4) closed-world destruction table: every unlink/rename/replace/link/rmtree/DELETE/UPDATE/truncate site of the package has a tabled owner function and area (private helpers are attributed to their callers), with key provenance for delete_objects, _clean_loose_objects' callers and clean_storage, a typestate on clean_storage's duplicate handling (a duplicate is removed only next to a verified primary copy or after a verified duplicate replaced it), and loose files unlinked by pack_all_loose only for keys staged by that call; "
           "(R5) init_container writes the configuration/folders only after both refusal tests on every path (typestate over clear=True/False), rmtree only under clear, every cache attribute of __init__ reset and sessions closed; "
-          "(R6) repack stages every row of the pack with id/hashkey/size taken from the like-named columns of the same row; loosen_object goes through the public reader and the loose writer with a key comparison. "
+          "(R6) repack stages every row of the pack with id/hashkey/size taken from the columns of the same row, removes a pack file only after an existence query over its rows said none or after the re-pointing commit (also when entered after an interrupted repack); loosen_object goes through the public reader and the loose writer with a key comparison. "
           "Does NOT decide equality of the views with the model after every history (values, histories): necessary conditions only."),
     note="Closed-world tables: a new destructive site or a new public view fails the check until it is reviewed and tabled. Trusted: SQLite/POSIX semantics.",
     technique="call-graph reachability + set-provenance/def-use checks on the read funnel + kind-resolved closed-world effect table + typestate on init_container", ref="5/C02"),
@@ -28,13 +28,13 @@ CLAIMS = {
           "(R1) a loose object is written in the sandbox, flushed and closed, then published by one atomic rename/replace, and nothing opens a file under loose/ for writing; "
           "(R2) in every pack-writing entry point an index row is committed only after its pack bytes were flushed/closed, a loose file is unlinked only after its row is committed and only for keys staged by this call (a collection feeding unlinks may only be filled next to a staging site), every staged row is inserted and committed; "
           "(R3) clean_storage decides unlinks on a query run after a session refresh; (R4) repack state machine: the file the committed index designates is always present and flushed (or the index points to the temporary pack); "
-          "(R5) delete: files first, then rows, one commit after the loop. Does NOT decide what the real kernel/SQLite leave on disk after a kill, nor byte-level completeness: only the order of effects (a necessary condition)."),
+          "(R5) delete: files first, then rows, one commit after the loop; (R6) transaction premises in database.get_session: explicit BEGIN with pysqlite's implicit transactions off, no autocommit/autoflush, no PRAGMA other than journal_mode=wal; (R7) do_commit forwarded unchanged by every wrapper. Does NOT decide what the real kernel/SQLite leave on disk after a kill, nor byte-level completeness: only the order of effects (a necessary condition)."),
     note="Trusted: POSIX rename/replace/link atomicity, SQLite atomic commit, O_APPEND; single packer; generators treated as eagerly consumed; Python dynamism not modelled.",
     technique="static typestate analysis on inlined CFGs (generic-object construction, flag specialisation)", ref="5/C05"),
  'C06': dict(
     text=("Decides the durability-ordering clauses for do_fsync=True on every path: (R0) safe_flush_to_disk flushes then fsyncs the handle's own descriptor for every binding of use_fullsync and the platform constants; "
           "(R1) every do_fsync parameter defaults to True and is forwarded unchanged; (R2) the sandbox file is flushed+fsynced+closed before the rename/replace; (R3) an index row is committed only after flush+fsync of the pack file, loose files unlinked only after that commit; "
-          "(R4) repack: temporary pack fsynced before the first commit, old pack removed only after it. Does NOT decide what storage really persists (fault model as stated by the property; no directory-fsync obligation)."),
+          "(R4) repack: temporary pack fsynced before the first commit, old pack removed only after it; (R5) transaction premises (commits explicit, atomic and durable: explicit BEGIN, no autocommit, only PRAGMA journal_mode=wal). Does NOT decide what storage really persists (fault model as stated by the property; no directory-fsync obligation)."),
     note="Platform constants folded for the platform running the check (Linux); SQLite commit durability trusted.",
     technique="static typestate analysis with durability facts + must-pass-through on the callee (alias-resolved fsync lambda)", ref="5/C06"),
  'C04': dict(
@@ -42,7 +42,7 @@ CLAIMS = {
           "writer publishes only complete, closed sandbox files by one atomic rename/replace, tolerates a vanishing destination, and nobody removes directories below loose/; "
           "packer makes pack bytes visible (flush/close) before committing the row and unlinks a loose file only after the commit; clean_storage decides on a snapshot begun after a session refresh; "
           "reader catches FileNotFoundError of the loose probe, routes the key to the retry set, refreshes its session and re-queries (IN and sorted-scan strategies) before answering MISSING, in both stream modes, and takes the loose size from the open descriptor; "
-          "LazyLooseStream retries through loosen_object. Each premise is a necessary condition; the interleaving semantics themselves are NOT decided."),
+          "LazyLooseStream retries through loosen_object; transaction premises (rows become visible to other connections only at COMMIT, WAL snapshots). Each premise is a necessary condition; the interleaving semantics themselves are NOT decided."),
     note="Trusted: POSIX unlink-while-open, rename atomicity, SQLite WAL snapshot isolation (a new session sees all earlier commits); one packer.",
     technique="static typestate analysis on ICFGs with exception edges + handler-routing/provenance checks on the read funnel", ref="5/C04"),
  'C17': dict(
@@ -55,7 +55,7 @@ CLAIMS = {
     text=("Decides the structural clauses of deduplication: (R1) ObjectWriter: the loose destination is a function of the key only; on every return path an existing copy was verified (checksum equal / vanished) or replaced, an absent destination was published; "
           "(R2) pack_all_loose removes already-indexed keys (both lookup strategies) before any pack write; (R3) append-handle typestate for every flag combination: after seek() on an 'ab' pack handle no tell()/write() before truncate(); "
           "(R4) direct-to-pack loop: exactly one returned key per stream, known content never staged, new keys staged and remembered, and the known-keys set is accumulated over all index pages; (R5) unique hashkey column, INSERT OR IGNORE, final truncate inside the lock; "
-          "(R6) import with different hash algorithms runs every add call with no_holes and read-twice. Does NOT decide object counts as values over histories."),
+          "(R6) import with different hash algorithms runs every add call with no_holes and read-twice; (R7) no_holes / no_holes_read_twice forwarded unchanged by every wrapper; (R1b) the checksum that decides whether an existing loose copy is intact is recomputed from the file on every call (verifier found by def-use; no caching decorator on its call chain). Does NOT decide object counts as values over histories."),
     note="Trusted: O_APPEND semantics, SQLite unique index.",
     technique="static typestate (append handle, decision tree, per-iteration bookkeeping) + dominance + constant propagation", ref="5/C09"),
  'C13': dict(
@@ -95,7 +95,7 @@ CLAIMS = {
  'C18': dict(
     text=("Decides resource-shape clauses: (R1) every descriptor-producing call of the package (open, os.open, sqlite3.connect, tempfile) is with-managed, closed on all normal paths of its function, handed over, or stored in an attribute whose owner class closes it; Container.close closes and disposes both sessions and __exit__/__del__ call it; "
           "(R2) the bulk-read generator never has two files open and closes on every exit incl. exceptions; the lazy loose stream is closed after each yield; (R3) no descriptor-returning call is discarded, incl. fcntl commands folding to F_DUPFD under Linux and macOS platform models; "
-          "(R4) lazily opened streams are used only inside their with block; (R5) every read in a streaming loop has a constant bound, whole-object reads in import are guarded by the memory budget. Does NOT decide measured memory or the run-time descriptor census."),
+          "(R4) lazily opened streams are used only inside their with block; (R5) every read in a streaming loop has a constant bound, whole-object reads in import are guarded by the memory budget; (R6) open_streams forwarded unchanged by every wrapper. Does NOT decide measured memory or the run-time descriptor census."),
     note="Garbage collection is not relied upon; platform models Linux + macOS.",
     technique="leak / one-open-file typestate on CFGs with exception edges + platform-aware constant folding + bounded-read table", ref="5/C18"),
  'C01': dict(
@@ -109,7 +109,7 @@ CLAIMS = {
  'C10': dict(
     text=("Decides: (R1) should_compress has a branch for every CompressMode member with the constant answer the mode demands (NO->False, YES->True, KEEP->source flag), raises otherwise, and bool maps to YES/NO; "
           "(R2) the compressed flag stored in the index row is the very value that selects the writer's compressing branch (pack_all_loose, direct path, _write_data_to_packfile guards), and in repack it is decided for every object from that object's own stored form on every path, with a complete transfer branch table, and every path that stages a row ran exactly one transfer loop in the form its tests select (raw copy iff flags equal / destination uncompressed; deflate + flush iff destination compressed); "
-          "(R3) estimate_compression restores the stream position on every path (typestate) and should_compress touches the stream nowhere else; (R4) size = bytes read by the writer / copied from the row, length = tell() difference around exactly this object's writes on every path incl. exception paths (range machine shared with C03.R1), totals map SUM(size)/SUM(length) to the right labels; (R5) decompresser rewind resets all state. "
+          "(R3) estimate_compression restores the stream position on every path (typestate) and should_compress touches the stream nowhere else; (R4) size = bytes read by the writer / copied from the row, length = tell() difference around exactly this object's writes on every path incl. exception paths (range machine shared with C03.R1), totals map SUM(size)/SUM(length) to the right labels; (R5) decompresser rewind resets all state; (R6) compress forwarded unchanged by every wrapper; the read side: the decompresser wraps the reader iff the truthiness of the row's flag (never an identity test). "
           "Does NOT decide that inflate(deflate(x)) == x nor the AUTO heuristic's numeric choice."),
     note="zlib trusted.",
     technique="enum/branch table check + def-use agreement + position-restore typestate", ref="5/C10"),
